@@ -23,6 +23,9 @@ package reference
 //@   ensures err == nil && res.identity != nil ==> res.resType != nil
 // the service base URL is the text in front of the Type/id part, as written (minus trailing '/')
 //@   ensures err == nil && res.identity != nil ==> strprefix(res.serviceBaseURL, uri)
+// ... and it ends exactly where the pattern's fourth group (Type/id...) starts: the split point is
+// the one the REST pattern found, not a position searched for by other means
+//@   ensures err == nil && res.identity != nil ==> 0 <= reIdx(restFHIRServiceResourceURLRegex, uri, 8) && reIdx(restFHIRServiceResourceURLRegex, uri, 8) <= len(uri) && res.serviceBaseURL == trimRightS(uri[:reIdx(restFHIRServiceResourceURLRegex, uri, 8)], "/")
 
 //@ func IdentityFromURL(url) (res, err)
 //@   requires reNumSub(restFHIRServiceResourceURLRegex) == 5
